@@ -56,23 +56,28 @@ class MemFS:
             p = posixpath.join(self.cwd, p)
         return posixpath.normpath(p)
 
-    def realpath(self, p):
-        """resolve symlinks segment by segment (like os.path.realpath; non-strict)"""
-        p = self.abspath(p)
-        for _ in range(40):
-            parts = [x for x in p.split("/") if x]
-            cur = ""
-            changed = False
-            for i, part in enumerate(parts):
-                cur = cur + "/" + part
-                if cur in self.links:
-                    rest = "/".join(parts[i + 1:])
-                    p = posixpath.normpath(posixpath.join(self.links[cur], rest) if rest else self.links[cur])
-                    changed = True
-                    break
-            if not changed:
-                return p
-        return p
+    def realpath(self, p, _depth=0):
+        """like os.path.realpath (non-strict): symbolic links are resolved segment by segment, *before* a following
+        '..' is applied - 'link/..' is the parent of the link's target, not of the link"""
+        p = str(p)
+        if not p.startswith("/"):
+            p = posixpath.join(self.cwd, p)
+        if _depth > 40:
+            return posixpath.normpath(p)
+        cur = ""
+        parts = [x for x in p.split("/") if x]
+        for i, part in enumerate(parts):
+            if part == ".":
+                continue
+            if part == "..":
+                cur = posixpath.dirname(cur) if cur else ""
+                continue
+            cur = cur + "/" + part
+            if cur in self.links:
+                tgt = self.links[cur]
+                rest = "/".join(parts[i + 1:])
+                return self.realpath(tgt + ("/" + rest if rest else ""), _depth + 1)
+        return cur or "/"
 
     def isfile(self, p):
         r = self.realpath(p)
